@@ -182,16 +182,17 @@ def run(ctx):
                 # the same shares written at other magnitudes (x 10^-7, x 10^-4, x 10^5): nobody moves
                 from decimal import Decimal
 
-                base = [rnd.randint(0, 9) for _ in range(rnd.randint(2, 5))]
+                base = [rnd.choice([rnd.randint(0, 9), rnd.randint(0, 9), rnd.choice([15, 25, 125, 33])]) for _ in range(rnd.randint(2, 5))]
                 if not any(base):
                     base[0] = 1
                 vs = [[str(x) for x in base]]
-                for e in rnd.sample([-9, -7, -6, -4, -2, 3, 5, 8], 3):
-                    vs.append([format(Decimal(x).scaleb(e), "f") for x in base])
+                for e in rnd.sample([-30, -21, -12, -11, -9, -7, -6, -4, -2, 3, 5, 8, 16, 19, 28], 4):
+                    # (floats from 1e16 up and below 1e-4 have exponent-notation reprs)
+                    vs.append([format(Decimal(x).scaleb(e), "f") + (".0" if e > 8 else "") for x in base])
                 fam = Family(ctx, im, vs)
                 pairs = [(a, b) for a in range(len(vs)) for b in range(len(vs)) if a != b]
             elif kind == "decimal":
-                a = rnd.choice(["0.1", "0.25", "1.5", "3.4", "0.000000001", "33.3"])
+                a = rnd.choice(["0.1", "0.25", "1.5", "3.4", "0.000000001", "33.3", "0.00000000025", "0.0000000000000000000125"])
                 b = rnd.choice(["0.2", "0.7", "2.5", "5", "1", "66.7"])
                 c3 = rnd.choice(["0.7", "0.6", "3", "1000000000"])
                 from decimal import Decimal
